@@ -945,7 +945,15 @@ fn gen_specs(rng: &mut Rng, thorough: bool) -> Vec<Spec> {
                 }
                 id += 1;
                 // request ids at the ends of the range on the response paths
-                let rid = match (k, specs.iter().filter(|s: &&Spec| s.kind == k).count()) { ("inline", 0) => 0, ("off", 0) => u64::MAX, ("proxy", 0) => u64::MAX - 1, _ => id };
+                // request ids at the ends of the range on the response paths: one within the limit, one over it
+                let nth = specs.iter().filter(|s: &&Spec| s.kind == k).count();
+                let rid = match (k, nth) {
+                    ("inline", 1) | ("off", 3) | ("proxy", 3) => 0,
+                    ("off", 1) | ("inline", 3) => u64::MAX,
+                    ("proxy", 1) | ("joff", 3) => u64::MAX - 1,
+                    ("joff", 1) => 1,
+                    _ => id,
+                };
                 specs.push(Spec { idx: String::new(), kind: k.to_string(), cfg: cfg.clone(), limit: *lim, id: rid, qlen, blen });
             }
         }
